@@ -205,3 +205,14 @@ def check(ctx):
         ctx.fail('C11.2', ctx.site(j, loop_exits[0][0], loop_exits[0][1]), 'a failed combination/decryption of one identifier group aborts the join instead of trying the next group: %s' % fmt(strip_sites(loop_exits[0][2])), key='C11.2|abort')
     else:
         ctx.ok('C11.2', ctx.site(j, comb[0][0]), 'a failing identifier group falls through to the next group; failure only after all groups were tried')
+
+
+_check_inner = check
+
+
+def check(ctx):
+    _check_inner(ctx)
+    from .. import panic
+    F = ctx.F
+    names = ['sskr_join', 'sskr_split_using', 'sskr_split', 'sskr_split_flattened']
+    panic.slice_check(ctx, 'C11.4', [F.method1('Envelope', n) for n in names if F.method1('Envelope', n)], 'sskr')
